@@ -445,6 +445,7 @@ type vfX01Env struct {
 	ddlNew   string                   // local version after the statement
 	polls    int32
 	npeers   int // system.peers polls that arrived while a wait was armed
+	firstPoll time.Time // arrival of the first poll of the current wait (the driver computed its deadline before sending it)
 	ndll     int // schema-changing statements answered
 	// policy spy
 	npol   int
@@ -1060,6 +1061,9 @@ func (e *vfX01Env) pollQuery(h *vfX01Held) {
 	e.mu.Lock()
 	if h.kind == "peers" {
 		e.npeers++
+		if e.firstPoll.IsZero() {
+			e.firstPoll = time.Now()
+		}
 	}
 	hold := e.holdPolls
 	if hold {
